@@ -2,7 +2,7 @@ SPECIFICATION Spec
 CONSTANTS
   Transfers <- TrBasic
   Extra <- None
-  MaxMsgs = 5
+  MaxMsgs = 4
   Track = TRUE
 VIEW View
 INVARIANTS TypeOK HistoryTracked
